@@ -20,11 +20,11 @@ from vcore.obl import Obl, DISCHARGED, REFUTED, UNDECIDED, ERROR, smt_decider
 GENMOD = "pyab_experiment.codegen.python.python_generator"
 GFN = GENMOD + ":PythonCodeGen."
 CMP_OPS = ["EQ", "NE", "GT", "GE", "LT", "LE", "NOT_IN", "IN"]
-STR_POOL = ["abc", "it's", 'say "hi"', "C:\\temp", "", "02134", "caf\u00e9", "'+str(print('PWNED'))+'", "a\\", "{x}", "%s", "\\n", "inf", "1e5", "'", '"""', "\\'", "\U0001F680", " x ", "x" * 40]
+STR_POOL = ["abc", "it's", 'say "hi"', "C:\\temp", "", "02134", "caf\u00e9", "'+str(print('PWNED'))+'", "a\\", "{x}", "%s", "\\n", "inf", "1e5", "'", '"""', "\\'", "\U0001F680", " x ", "x" * 40, "v1\rimport builtins", "a\x0cb", "a\u2028b"]
 INT_POOL = [0, 18, -5, 9007199254740993, 10 ** 30]
 FLOAT_POOL = [1.5, -0.25, 0.1, 1e22, 3.4]
 TUPLE_POOL = [(1, 2, 3), ("a",), (1, [2, 3]), ("it's", -1.5), (T.IdentObj("x"), 1), ((1,),), (1, [2, [3, "z"]])]
-NAME_SETS = [(["b", "a"], {"c", "a2"}), (["x"], {"x"}), (["u", "u", "t"], {"t", "w"}), (["B", "a", "_c"], set()), (["uid"], {"age", "country"})]
+NAME_SETS = [(["account_id", "id", "uid"], {"id", "tier"}), (["b", "a"], {"c", "a2"}), (["x"], {"x"}), (["u", "u", "t"], {"t", "w"}), (["B", "a", "_c"], set()), (["uid"], {"age", "country"})]
 
 
 def links_for(pid):
@@ -242,10 +242,34 @@ def link_generator(ctx, mutate=None, tag=""):
         I = T.Interp(base_depth=2, placeholder=placeholder)
         cases.append(Case(pre + "_generate_exception/raises-the-dedicated-error", GFN + "_generate_exception", "the unroutable-condition statement is `raise ExperimentConditionalFailedError()` at the current depth",
                           "def f():\n\tdef g():\n" + T.render(t, I) + "\n", "def f():\n\tdef g():\n\t\t" + D.RAISE + "\n", ("C02", "C07")))
-        ex = G.executor(contracts_except("render_topline"))
-        t = ex.call_method("render_topline", G.me(), [])
-        cases.append(Case(pre + "render_topline/imports-exactly-the-skeleton-names", GFN + "render_topline", "the module header imports partial, ExperimentConditionalFailedError, deterministic_choice and nothing else",
-                          T.render(t, T.Interp(placeholder=placeholder)), D.TOPLINE, ("C14", "C13")))
+        for salt_kind in ("none", "str"):
+            ex = G.executor(contracts_except("render_topline"))
+            salt = S.Sym("salt", "str") if salt_kind == "str" else None
+            idn = S.Sym("id", "ident")
+            node = S.Node("ExperimentAST", id=idn, splitting_fields=S.Sym("F", "list", nonempty=True), salt=salt, conditions=S.Sym("C", "node:cond"))
+            t = ex.call_method("render_topline", G.me(ast_node=node), [])
+            raws = [h for h in (S.Tmpl([t]).holes() if not isinstance(t, str) else []) if h.kind in ("str()", "format()") and isinstance(h.payload, S.Sym) and h.payload.kind == "str"]
+            struct_obl("render_topline/salt=%s.no-source-text-in-the-header" % salt_kind, "render_topline",
+                       "the module header contains no text taken from the source (a raw salt in a `#` comment ends the comment at a \\r)", not raws, repr(t)[:300], ("C13", "C14"),
+                       model={"raw_holes": [repr(h) for h in raws], "witness_salt": "v1\rimport os"})
+            for j, sv in enumerate(STR_POOL if salt is not None else [None]):
+                vals = {idn.id: "exp"}
+                if salt is not None:
+                    vals[salt.id] = sv
+                try:
+                    real = T.render(t, T.Interp(vals, placeholder=placeholder))
+                except Exception as e:   # noqa
+                    real = "<render failed: %s>" % e
+                prog = None
+                if sv is not None:
+                    try:
+                        from spec import dsl_ref
+                        prog = 'def exp { salt: %s splitters: uid return "A" weighted 1, "B" weighted 1 }' % dsl_ref.q(sv)
+                    except ValueError:
+                        prog = None
+                cases.append(Case(pre + "render_topline/salt=%s[%d] imports-exactly-the-skeleton-names" % (salt_kind, j), GFN + "render_topline",
+                                  "the module header imports partial, ExperimentConditionalFailedError, deterministic_choice and does nothing else, whatever the source contains",
+                                  real, D.TOPLINE, ("C14", "C13"), note={"salt": sv, "program": prog}, replay=case_replay))
         for prop, attr in (("local_vars", "_local_vars"), ("conditional_ids", "_conditional_ids")):
             ex = G.executor(contracts_except(prop))
             sym = S.Sym("names", "list", nonempty=True)
